@@ -737,7 +737,8 @@ Proof.
     assert (H2 : cstart t j < cstart t (S j)).
     { rewrite cstart_S by lia. pose proof (nth_pos t j P L). lia. }
     replace (cstart t j >=? zsum t) with false by lia. cbn [andb orb].
-    replace ((0 <=? cstart t j) && (cstart t j <=? cstart t (S j)) && (cstart t (S j) <=? zsum t)) with true by lia.
+    replace ((0 <=? cstart t j) && (cstart t j <=? cstart t (S j)) &&
+             ((cstart t j =? cstart t (S j)) || (cstart t (S j) <=? zsum t))) with true by lia.
     reflexivity.
   - apply Nat.ltb_ge in L.
     assert (A : zsum t <= cstart (t ++ repeat 1 k) j).
